@@ -286,7 +286,20 @@ def gen_tie(rng):
             "full": True}
 
 
-GENS = {"generic": gen_generic, "clustered": gen_clustered, "collinear": gen_collinear,
+ROOTS_LONG = [("0:0", "0:0", "1:%d" % k, "1:0") for k in (3, 5, 8)] + [("0:0", "0:0", "1:0", "1:%d" % k) for k in (3, 5, 8)] \
+    + [("1:-1", "-3:-2", "1:4", "1:-2")]
+
+
+def gen_elongated(rng, root, n):
+    """strongly elongated root boxes (aspect 8 .. 256), points spread along the long axis: the summary criterion must use
+    the LONGER half-size (max(hh, hw)); with the shorter one whole strips are summarised from nearby and the proved
+    error bound fails"""
+    x0, x1, y0, y1 = root_box(root)[:4]
+    g = rng.choice([4, 8, 12])
+    return [(rnd_grid(rng, x0, x1, g), rnd_grid(rng, y0, y1, g)) for _ in range(n)]
+
+
+GENS = {"elongated": gen_elongated, "generic": gen_generic, "clustered": gen_clustered, "collinear": gen_collinear,
         "coincident": gen_coincident, "edges": gen_edges, "ranges": gen_ranges}
 
 
@@ -308,8 +321,8 @@ def gen_cases(rng, budget, sizes=(1, 2, 3, 4, 5, 7, 9, 12, 16, 24, 40)):
     """budget: dict of counts per family"""
     cases = []
     for kind, gen in GENS.items():
-        for _ in range(budget[kind]):
-            root = rng.choice(ROOTS)
+        for _ in range(budget.get(kind, 0)):
+            root = rng.choice(ROOTS_LONG if kind == "elongated" else ROOTS)
             n = rng.choice(sizes)
             pts = gen(rng, root, n)
             order = list(range(len(pts)))
@@ -384,10 +397,10 @@ def gen_scaled_cases(rng, count, nmixed):
     up to 600 levels deep, near the origin or a one-bit anchor so that every cell centre is a double.  Any absolute
     threshold in the code (depth cap, epsilon compare, minimum cell size) shows as a mismatch with the model."""
     cases = []
-    fams = ["generic", "clustered", "collinear", "coincident", "edges", "ranges"]
+    fams = ["generic", "clustered", "collinear", "coincident", "edges", "ranges", "elongated"]
     for n_ in range(count):
         kind = fams[n_ % len(fams)]
-        root = rng.choice(ROOTS)
+        root = rng.choice(ROOTS_LONG if kind == "elongated" else ROOTS)
         pts = GENS[kind](rng, root, rng.choice([2, 3, 5, 8, 12, 20]))
         order = list(range(len(pts)))
         rng.shuffle(order)
@@ -1865,9 +1878,9 @@ def run_batch(ctx, exe, mexe, cases, stats, with_model=True):
 def budgets(ctx):
     if ctx.quick:
         return ({"generic": 80, "clustered": 60, "collinear": 60, "coincident": 80, "edges": 80, "ranges": 50,
-                 "outside": 20, "tie": 50, "scale": 36, "scale_mixed": 14}, [4, 5], 40)
+                 "outside": 20, "tie": 50, "scale": 36, "scale_mixed": 14, "elongated": 30}, [4, 5], 40)
     return ({"generic": 400, "clustered": 300, "collinear": 300, "coincident": 400, "edges": 400, "ranges": 300,
-             "outside": 80, "tie": 250, "scale": 160, "scale_mixed": 50}, [3, 4, 5, 6], 300)
+             "outside": 80, "tie": 250, "scale": 160, "scale_mixed": 50, "elongated": 150}, [3, 4, 5, 6], 300)
 
 
 def corpus_cases(ctx):
@@ -1920,12 +1933,13 @@ def run(ctx):
     if ctx.is_unshown() and not ctx.has_violation():
         # search phase: the proof or the correspondence broke; look for an input on which the implementation
         # itself violates the specification (larger budget, spec-level checks only)
+        t_search = ctx.elapsed()         # the limit below is on the search itself, not on coq / build / lock waiting before it
         for rnd in range(6):
             b2 = {k: v * 2 for k, v in budgets(ctx)[0].items()}
             more = gen_cases(rng, b2) + gen_scaled_cases(rng, 24, 24) + gen_tol_cases(rng, 40)
             searched += run_batch(ctx, exe, mexe, more, stats, with_model=False)
             searched += evaluate_grad(ctx, exe, gen_grad_cases(rng, 100), stats)
-            if ctx.has_violation() or ctx.elapsed() > (150 if ctx.quick else 900):
+            if ctx.has_violation() or ctx.elapsed() - t_search > (150 if ctx.quick else 900):
                 break
     hist = {}
     for c in cases:
@@ -1941,7 +1955,7 @@ def run(ctx):
     ctx.finish(
         evaluations=n + searched, distinct_nontrivial=len(distinct),
         rule="point sets from corpus + families generic dyadic / clustered / collinear (incl. on split lines) / coincident "
-             "(2..5 copies) / on cell edges and corners / magnitudes 2^-40..2^0 / points outside the root / exact ties of "
+             "(2..5 copies) / on cell edges and corners / elongated boxes (aspect 8..256) / magnitudes 2^-40..2^0 / points outside the root / exact ties of "
              "the summary criterion / the same case times 2^k, k = +-30..+-300 (scale) / tiny cluster in a huge box up to "
              "600 levels deep (scale_mixed), random insertion orders, every permutation of small mixed sets, six root boxes "
              "(square, rectangular, offset); thetas 0, 2^-60, 2^-20, 1/64, 1/8, 1/2, 1, 2.  Exact stream: every cell of the "
